@@ -146,6 +146,42 @@ func (t *W) End() {
 	}
 }
 
+// Raw writes a line verbatim (protocol markers of child processes).
+func (t *W) Raw(s string) {
+	t.w.WriteString(s)
+	t.w.WriteByte('\n')
+}
+
+// Flush flushes the underlying writer.
+func (t *W) Flush() { _ = t.w.Flush() }
+
+// ResetStats clears the distribution counters.
+func (t *W) ResetStats() { t.Stats = map[string]int{} }
+
+// Forward writes a trace line produced by a child process, keeping the counters right.
+func (t *W) Forward(s string) {
+	switch {
+	case strings.HasPrefix(s, "case "):
+		t.Cases++
+		t.cur = nil
+		// renumber: case numbers are assigned by the parent
+		rest := s[5:]
+		if i := strings.Index(rest, " "); i >= 0 {
+			rest = rest[i+1:]
+		} else {
+			rest = ""
+		}
+		t.line(fmt.Sprintf("case %d %s", t.Cases, rest))
+		return
+	case s == "end":
+		t.End()
+		return
+	case strings.Contains(s, " => "):
+		t.Ops++
+	}
+	t.line(s)
+}
+
 // Count increments a distribution counter reported in the evidence.
 func (t *W) Count(key string) { t.Stats[key]++ }
 
